@@ -70,6 +70,11 @@ func (r *atRun) checkEncoding(o *episodeObs, t *localTxn, fl *undo.BranchUndoLog
 		r.violate("C08", "decodable", cls(k), "episode %d branch %d (serializer %s, compress %s): the stored undo log cannot be decoded: %v", o.idx, fl.BranchID, cfg.Serializer, cfg.Compress, err)
 		return
 	}
+	if ctx := collection.DecodeMap(toBytes(t.undoIns.Args[2])); ctx != nil {
+		if cfgc := strings.ToLower(cfg.Compress); cfgc != "" && cfgc != "none" && strings.EqualFold(ctx["compressorTypeKey"], "None") {
+			r.w.Sim.Probe("c08-stored-uncompressed-after-compressor-refused-" + cfgc)
+		}
+	}
 	if dec.Xid != fl.Xid || dec.BranchID != fl.BranchID || len(dec.Logs) != len(fl.Logs) {
 		r.violate("C08", "lossless", cls("header-mismatch"), "episode %d: decoded undo log has xid/branch/items %q/%d/%d, written %q/%d/%d", o.idx, dec.Xid, dec.BranchID, len(dec.Logs), fl.Xid, fl.BranchID, len(fl.Logs))
 		return
